@@ -881,4 +881,26 @@ def readBasisFile (name : List Char) (fmt : Option String) (c : Stored ModeBasis
   | .pickle, .pickle b => .ok b
   | _, _ => .error .value
 
+/-! ## chains of files: what is read from one file is written to the next -/
+
+abbrev Hop := List Char × Option String
+
+/-- a chain of file round trips: what is read from one file is written to the next -/
+def gridChain (lib : AsdfLib) : List Hop → Grid → Except Err Grid
+  | [], g => .ok g
+  | (n, f) :: r, g => do
+    let c ← writeGridFile lib n f g
+    let g' ← readGridFile n f c
+    gridChain lib r g'
+
+/-- each hop comes with the memory layout of the data it writes (it matters for pickle files only:
+a field read from a pickle of Fortran-ordered data is Fortran-ordered again, every other reader
+returns C-ordered data) -/
+def fieldChain (lib : AsdfLib) : List (Layout × Hop) → Field → Except Err Field
+  | [], x => .ok x
+  | (l, n, f) :: r, x => do
+    let c ← writeFieldFile lib l n f x
+    let x' ← readFieldFile n f c
+    fieldChain lib r x'
+
 end HcipyVerif.Serial
